@@ -8,6 +8,7 @@ METHOD = {"X16": ("m_x16", 0), "X32": ("m_x32", 1)}
 
 class P(b1.Plugin):
     type_names = None      # set below: names of the palette types, by index
+    extra_methods = [("m_x16", 0), ("m_x32", 1)]
     ops = ("into",)
     driver_traits = (("into", "Into"),)
     rule = ("struct/enum definitions with 1-4 fields per variant over source/target types whose conversions are pairwise "
@@ -130,7 +131,7 @@ def reference_target_tie(tie):
 
 def main(tier):
     t0 = time.time()
-    proof = common.proof_obligations("C10")
+    proof = common.proof_obligations("C10", modules=["EduceModel.Props.C10", "EduceModel.Props.E2E"])
     n_defs, cap_vals = (250, 6) if tier == "quick" else (3000, 20)
     tie = b1.run_b1("C10", P(), n_defs, cap_vals, common.seed())
     try:
